@@ -6,6 +6,7 @@ import (
 	"math/big"
 	"sort"
 	"strings"
+	"time"
 
 	"github.com/Trendyol/go-dcp/metric"
 	"github.com/prometheus/client_golang/prometheus"
@@ -21,6 +22,9 @@ import (
 
 type MetricParams struct {
 	Depth int `json:"depth"`
+	// SkipUntil: dcp.listener.skipUntil is configured and some events are older: they are not accepted and
+	// must not be counted
+	SkipUntil bool `json:"skip_until"`
 }
 
 type ScrapeRaceParams struct {
@@ -96,6 +100,7 @@ func init() {
 			}
 			return []Instance{
 				{Scenario: "c16_hist", Params: mustJSON(MetricParams{Depth: d}), Bound: 0, Shards: 8},
+				{Scenario: "c16_hist", Params: mustJSON(MetricParams{Depth: d - 1, SkipUntil: true}), Bound: 0, Shards: 4, Note: "skipUntil configured: events older than it are not accepted and not counted"},
 				{Scenario: "c16_race", Params: mustJSON(ScrapeRaceParams{Against: "close"}), Bound: b, Shards: sh},
 				{Scenario: "c16_race", Params: mustJSON(ScrapeRaceParams{Against: "rebalance"}), Bound: b, Shards: sh},
 				{Scenario: "c16_race", Params: mustJSON(ScrapeRaceParams{Against: "open"}), Bound: b, Shards: sh},
@@ -117,6 +122,10 @@ type metricRef struct {
 func metricHistMain(p MetricParams) {
 	resetGlobals()
 	o := EnvOpts{Vbs: 4, CheckpointType: "manual", MembershipType: "dynamic", WrapMeta: true}
+	if p.SkipUntil {
+		t := skipT
+		o.SkipUntil = &t
+	}
 	c := NewCluster(&o)
 	e := NewEnv(c, o)
 	publishInfo(e, 1, 1)
@@ -127,6 +136,9 @@ func metricHistMain(p MetricParams) {
 	next := map[uint16]uint64{0: 1, 1: 1, 2: 1, 3: 1}
 	var hist []string
 	kinds := []string{"M", "D", "E", "Mres", "SEQ"}
+	if p.SkipUntil {
+		kinds = []string{"M", "Mbefore", "Ebefore", "Mat", "D"}
+	}
 	check := func() {
 		vrt.Quiesce()
 		c.WaitIdle()
@@ -174,6 +186,9 @@ func metricHistMain(p MetricParams) {
 			sent := map[string]int{}
 			for _, pk := range c.Vb[vb].Log {
 				if isDoc(pk.Kind) && pk.Seq > start {
+					if p.SkipUntil && time.Unix(int64(pk.Cas/1000000000), 0).Before(skipT) {
+						continue // older than skipUntil: not accepted
+					}
 					sent[pk.Kind]++
 				}
 			}
